@@ -58,6 +58,17 @@ def setup_text(val, pos, arr, ifs):
     return "\n".join(s)
 
 
+def join_pieces(pieces):
+    """`$v` directly followed by a name character would read a different variable (`$vsub/*` globs the root directory): brace it."""
+    out = []
+    for k, p in enumerate(pieces):
+        nxt = pieces[k + 1] if k + 1 < len(pieces) else ""
+        if p.endswith("$v") and nxt[:1] and (nxt[0].isalnum() or nxt[0] == "_"):
+            p = p[:-2] + "${v}"
+        out.append(p)
+    return "".join(out)
+
+
 def make_case(word, val, pos, arr, ifs, kinds):
     block = "%s\nargdump -t w.{i} -- %s\necho \"@s.{i} $?\"\nset -- %s\necho \"@n.{i} $#\"" % (setup_text(val, pos, arr, ifs), word, word)
     return {"block": block, "word": word, "val": val, "pos": pos, "arr": arr, "ifs": ifs[0], "kinds": kinds}
@@ -93,7 +104,7 @@ def gen_cases(rng, quick, scale):
         rng.shuffle(combos)
         combos = combos[: int(2500 * scale)]
     for n, combo in enumerate(combos):
-        word = "".join(p for _, p in combo)
+        word = join_pieces([p for _, p in combo])
         kinds = [k for k, _ in combo]
         val = VALUES[n % len(VALUES)]
         ifs = IFS_MODES[(n // 3) % len(IFS_MODES)]
@@ -104,7 +115,7 @@ def gen_cases(rng, quick, scale):
     nrand = int((3000 if quick else 120000) * scale)
     for _ in range(nrand):
         combo = [rng.choice(flat) for _ in range(rng.choice([3, 3, 4]))]
-        word = "".join(p for _, p in combo)
+        word = join_pieces([p for _, p in combo])
         kinds = [k for k, _ in combo]
         val = rng.choice(VALUES)
         ifs = rng.choice(IFS_MODES)
@@ -114,7 +125,7 @@ def gen_cases(rng, quick, scale):
     # double-quoted strings of two (all ordered pairs) and three (random) inner pieces, alone and glued to unquoted text
     dq = [(x, y) for x in DQIN for y in DQIN]
     for n, combo in enumerate(dq + [tuple(rng.choice(DQIN) for _ in range(3)) for _ in range(int((300 if quick else 6000) * scale))]):
-        inner = "".join(combo)
+        inner = join_pieces(list(combo))
         word = ['"%s"', 'p"%s"', '"%s"$v', '"%s"\'q\''][n % 4] % inner
         val = VALUES[n % len(VALUES)]
         ifs = IFS_MODES[(n // 5) % len(IFS_MODES)]
@@ -133,7 +144,10 @@ def gen_cases(rng, quick, scale):
     for val in VALUES:
         for ifs in IFS_MODES:
             for w in ["$v", "x$v", "$v$v", "$v'q'", "\"$v\"$v", "${v:-d e}", "$v*", "pre$v/post", "$*", "x$@y", "\"x$@y\"", "$@$@", "${a[@]}$v", "\"$*\"", "\"${a[*]}\"", "x\"$@\"", "\"$@\"x", "${v}${a[*]}",
-                      "${@:-d e}", "\"${@:-d e}\"", "a${@:-b c}d", "${@:+y}", "\"${a[@]:-d}\"", "${a[@]:+y z}", "${*:-d}", "${@-d}"]:
+                      "${@:-d e}", "\"${@:-d e}\"", "a${@:-b c}d", "${@:+y}", "\"${a[@]:-d}\"", "${a[@]:+y z}", "${*:-d}", "${@-d}",
+                      # a quoted list that may be empty next to parts that may expand to nothing (no field at all when everything is empty)
+                      "\"$@$v\"", "\"${a[@]}$v\"", "\"$@${v:+x}\"", "\"${v:+x}$@\"", "\"$@$(:)\"", "x\"$@$v\"", "\"$@$v\"x", "\"$@$v\"''", "\"$v${a[@]}$v\"", "\"$@$@$v\"",
+                      "\"${u:-\"$v\"}$@\""]:
                 cases.append(make_case(w, val, ["a", "b c", ""], ["x", "", "y z"], ifs, ["core"]))
                 cases.append(make_case(w, val, [], [], ifs, ["core"]))
                 cases.append(make_case(w, val, [""], [""], ifs, ["core"]))
